@@ -383,6 +383,10 @@ pub open spec fn removed_rel<K: Borrow<Q>, Q: PartialEq + ?Sized, V, const N: us
 
 /// ASSUMED: `core::mem::drop(x)` destroys `x` and has no other effect on the caller's
 /// state (vstd has no specification for it).  It may unwind.
+/// ASSUMED: `Option<&T>::copied` copies the referent out (vstd leaves it unspecified)
+pub assume_specification<'a, T: Copy>[ Option::<&'a T>::copied ](o: Option<&'a T>) -> (r: Option<T>)
+    ensures r == (match o { Some(x) => Some(*x), None => None });
+
 pub assume_specification<T>[ core::mem::drop::<T> ](x: T)
     opens_invariants none;
 
